@@ -121,16 +121,16 @@ fn run_program(prog: &[Op]) -> Vec<bool> {
     let mut obs = Vec::with_capacity(prog.len());
     for &op in prog {
         match op {
-            Op::Enable => te::enable(),
-            Op::Disable => te::disable(),
-            Op::Toggle => te::toggle(),
-            Op::LocalEnable => te::local_enable(),
-            Op::LocalDisable => te::local_disable(),
-            Op::LocalToggle => te::local_toggle(),
+            Op::Enable => { let _ = te::enable(); }
+            Op::Disable => { let _ = te::disable(); }
+            Op::Toggle => { let _ = te::toggle(); }
+            Op::LocalEnable => { let _ = te::local_enable(); }
+            Op::LocalDisable => { let _ = te::local_disable(); }
+            Op::LocalToggle => { let _ = te::local_toggle(); }
             Op::LocalTake => token = Some(te::local_take()),
             Op::Restore => {
                 if let Some(t) = token.take() {
-                    te::restore(t)
+                    let _ = te::restore(t);
                 }
             }
             Op::TakeDiscard => {
